@@ -18,7 +18,7 @@ from .. import models
 from ..core import RunResult, adigest, mix
 from ..driver import pristine_library_state
 from .hist_common import SAME, TAU, quiet
-from .hist_common import call_value as _call_value
+from .hist_common import call_value as _call_value, maybe_interrupted_call
 
 NAME = "H"
 PROPERTY = "C12"
@@ -29,7 +29,7 @@ COMPONENTS = {"real": ["toqito.state_opt.ppt_distinguishability (primal and dual
 RULE = ("one run = one caller-owned list of 2..4 states on 2x2, 2x3 or 3x2, sometimes with a second list used in between (same shape, another shape, or the same ensemble with the two parties written in the other order) (column kets / density matrices / 1-D vectors where accepted; real and complex; arbitrary prior; or the four Bell kets) reused by 3..6 calls in seeded order: "
         "ppt_distinguishability (party 0 or 1, primal or dual), symmetric_extension_hierarchy (level 1 or 2, dim as list / scalar / omitted), state_distinguishability; "
         "non-trivial = the list holds kets (the form the hierarchy converts) and is used by >=2 operations with the hierarchy not last; distinct = distinct digest of (list, prior, operation sequence)")
-SHRINK_ORDER = ["config", "states", "ops"]
+SHRINK_ORDER = ["config", "states", "ops", "intr"]
 
 
 def call_value(fn, res, label):
@@ -343,6 +343,7 @@ def run(cs, tier, run_index):
             if swapped is True and op["op"] == "seh" and op["dim"] == "omitted":
                 op2["dim"] = "list"
             other = call_value(op_fn(lib, L2, probs2, dims2, op2), res, op["op"] + "(other list)")
+        maybe_interrupted_call(cs, res, op_fn(lib, L, probs, dims, op))
         out = call_value(op_fn(lib, L, probs, dims, op), res, op["op"] + ("_" + op["form"] if op["op"] == "ppt" else ""))
         names.append(op["op"])
         res.log.add("op", k, key, out[1] if out[0] == "ok" else out[:2])
